@@ -8,5 +8,6 @@ GSpec == GInit /\ [][GNext]_<<vars, hist>>
 PathOut == PrintT(ToJson([h |-> hist, a |-> act', o |-> obs']))
 StateOut ==
   PrintT(ToJson([sh |-> hist, ndf |-> IdealNdf, did_fit |-> didFit, has_errors |-> HasErrors, fixed |-> fixed, limited |-> limited,
-                 posdef |-> WellPosed, cost_node |-> costNode, on |-> On, present |-> Present]))
+                 posdef |-> WellPosed, cost_node |-> costNode, on |-> On, present |-> Present,
+                 cons |-> cons, data_set |-> dataSet, implicit |-> implicitNoErr, own_src |-> ownSrc, diagonal |-> IdealDiagonal]))
 =============================================================================
